@@ -54,3 +54,13 @@ reg(PropertySpec(
     assumptions=["resumed path: the checkpoint satisfies the loop invariant of the run that wrote it (same sampling arguments), which is the invariant proved for that run",
                  "kernel mutate() appends exactly one acceptance entry per call (MutateModel)"],
 ))
+
+reg(PropertySpec(
+    "C02", "Weights, evidence and ESS are exact functionals of the per-sample log-densities",
+    lean=["C02.lean", "@range"],
+    native=_lazy("checks.native_misc", "native_C02"),
+    technique="contract-based deductive verification: the bodies of logsumexp, effective_sample_size, Samples.compute_weights, scaled_weights, efficiency and the acceptance test of rejection_sample are translated from the ast to Lean definitions on every run; spec equalities, bounds, invariances and exp-argument range obligations are Lean/Mathlib theorems; bounded native stand-in vs mpmath",
+    trusted_base=["py2lean translation (pointwise printing of vectors over Fin n -> R; what it drops is listed in coverage.extraction_drops)"],
+    assumptions=["entries finite in the deductive part (the -inf subset is covered by the bounded stand-in only)", "n >= 2 for the relative error"],
+    miss=["rounding inside the libraries' exp/log/sum"],
+))
